@@ -130,6 +130,50 @@ pub fn run_case(line: &str) -> String {
         "qc" => crate::channel::qscen::run_conc(&w[1..]),
         "bs" => crate::ports::output::bscen::run(&w[1..]),
         "tsc" => crate::tsetscen::run(&w[1..]),
+        "inj" => run_inj(&w[1..]),
         k => format!("ERR unknown-kind {}", k),
+    }
+}
+
+
+/// Operation sequences on the verbatim executor/mt_executor/injector.rs (bucket capacity 1..4 or 128):
+/// i<v> insert_task, b<v.v.v> push_bucket(Bucket::from_iter), p pop_bucket, e is_empty.
+fn run_inj(w: &[&str]) -> String {
+    use crate::executor::mt_executor::injector::{Bucket, Injector};
+    fn go<const N: usize>(ops: &[&str]) -> String {
+        let q: Injector<i64, N> = Injector::new();
+        let mut out = Vec::new();
+        for o in ops {
+            let (k, rest) = o.split_at(1);
+            match k {
+                "i" => {
+                    q.insert_task(rest.parse().unwrap());
+                    out.push("u".to_string());
+                }
+                "b" => {
+                    let v: Vec<i64> = rest.split('.').filter(|x| !x.is_empty()).map(|x| x.parse().unwrap()).collect();
+                    q.push_bucket(Bucket::<i64, N>::from_iter(v));
+                    out.push("u".to_string());
+                }
+                "p" => match q.pop_bucket() {
+                    None => out.push("-".to_string()),
+                    Some(b) => {
+                        let v: Vec<String> = b.into_iter().map(|x| x.to_string()).collect();
+                        out.push(format!("[{}]", v.join(".")));
+                    }
+                },
+                "e" => out.push(if q.is_empty() { "1".into() } else { "0".into() }),
+                _ => panic!("inj op {}", o),
+            }
+        }
+        out.join(" ")
+    }
+    let cap: usize = w[0].parse().unwrap();
+    match cap {
+        1 => go::<1>(&w[1..]),
+        2 => go::<2>(&w[1..]),
+        3 => go::<3>(&w[1..]),
+        4 => go::<4>(&w[1..]),
+        _ => go::<128>(&w[1..]),
     }
 }
